@@ -76,6 +76,7 @@ func cmdCheck(args []string) int {
 	noEv := fs.Bool("no-evidence", false, "do not write the evidence file (experiments)")
 	maxPaths := fs.Int("maxpaths", 0, "override every instance's path limit (experiments)")
 	timeoutS := fs.Int("timeout", 0, "override every instance's work budget in seconds (experiments)")
+	smtlog := fs.String("smtlog", "", "write the complete SMT-LIB session of worker 0 here (use with -workers 1; input of tools/crosscheck.sh)")
 	nwit := fs.Int("witness", 1, "completed paths per instance whose model is replayed natively (translator validation); 0 = off")
 	fs.Parse(args)
 	verbose = *cf.v
@@ -124,7 +125,7 @@ func cmdCheck(args []string) int {
 	}
 	loadT := time.Since(t0)
 	eng := newEngine(prog)
-	ck := &Checker{eng: eng, repo: *cf.repo, harness: *cf.harness, solverBin: *cf.z3, workers: *cf.workers, extra: extra, witnesses: *nwit}
+	ck := &Checker{eng: eng, repo: *cf.repo, harness: *cf.harness, solverBin: *cf.z3, workers: *cf.workers, extra: extra, witnesses: *nwit, smtlog: *smtlog}
 	states := ck.explore(insts)
 	// if-conversion is an optimisation with limits (it cannot merge pointer-valued locals): an instance whose
 	// code has changed so that a merge fails is explored again path by path instead of ending inconclusive
